@@ -39,6 +39,7 @@ func Run(cfg hx.Config) (*hx.Meta, error) {
 		return nil, err
 	}
 	lines = append(lines, l...)
+	lines = append(lines, runCross(cfg, meta)...) // crosspkg.go: packages that depend on each other's generated code
 	path := filepath.Join(cfg.Out, "c08.obs")
 	if err := os.WriteFile(path, []byte(strings.Join(lines, "\n")+"\n"), 0o644); err != nil {
 		return nil, err
